@@ -64,3 +64,13 @@ Theorem C11_protocol_nonvacuous :
               Safety.majority SafetyEx.vs3 [] (ReadIndex.has_acker r) /\ ReadIndex.rd_c0 r <> [].
 Proof. exact ReadIndexEx.read_index_nonvacuous. Qed.
 Print Assumptions C11_protocol_nonvacuous.
+
+(* a follower reports the read index the leader confirmed, unchanged (Proofs/RoleProofs.v; the seeded
+   change C11_follower_clamp_readindex replaced it by the follower's own commit index) *)
+From RaftV Require RoleProofs.
+Theorem C11_follower_reports_leaders_read_index : forall st r m e r' err,
+  m_type m = MsgReadIndexResp -> m_entries m = [e] ->
+  step_follower st r m = Ok (r', err) ->
+  r_read_states r' = r_read_states r ++ [mkRS (m_index m) (e_data e)].
+Proof. exact RoleProofs.follower_reports_leaders_read_index. Qed.
+Print Assumptions C11_follower_reports_leaders_read_index.
